@@ -58,9 +58,49 @@ def _coef_case(npts, cached, backwards=False):
     return Case("%d_point_curve%s" % (npts, "_entered_high_flow_first" if backwards else ""), build, sample=None if backwards else sample, crosscheck=not backwards)
 
 
-CONTRACTS = [Contract("wntr.network.elements:HeadPump.get_head_curve_coefficients", P + ["C11"], [_coef_case(1, False), _coef_case(2, False), _coef_case(2, False, backwards=True)],
+def _compute_change_compute(pump, curve, new_points):
+    first = pump.get_head_curve_coefficients()
+    again = pump.get_head_curve_coefficients()
+    curve.points = new_points
+    after = pump.get_head_curve_coefficients()
+    return first, again, after
+
+
+def _coef_history_case():
+    """the coefficients are cached on the pump: asked again they are the same; after the curve's points were changed (through the Curve.points setter) they are
+    those of the new curve"""
+    def build(cx):
+        pts = [(cx.real("Q%d" % i), cx.real("H%d" % i)) for i in range(2)]
+        new = [(cx.real("newQ%d" % i), cx.real("newH%d" % i)) for i in range(2)]
+        for P_ in (pts, new):
+            for (q, h) in P_:
+                cx.assume(cx.t(q) >= 0, cx.t(h) >= 0)
+            cx.assume(cx.t(P_[0][0]) < cx.t(P_[1][0]), cx.t(P_[0][1]) > cx.t(P_[1][1]))
+        cx.assume(z3.Or(cx.t(pts[0][0]) != cx.t(new[0][0]), cx.t(pts[0][1]) != cx.t(new[0][1])))     # the change changes something
+        curve = cx.obj(Curve, _name="c", _curve_type="HEAD", _points=list(pts))
+        pump = cx.obj(HeadPump, _link_name="P1", _pump_curve_name="c", _curve_reg={"c": curve}, _curve_coeffs=None, _coeffs_curve_points=None)
+        cx.allow_raise(RuntimeError, True)
+        cx.target(_compute_change_compute, pump, curve, list(new))
+
+        def post(out):
+            if not out.returned:
+                return []
+            (A1, B1, C1), (A2, B2, C2), (A3, B3, C3) = out.value
+            t = cx.t
+            return [("asked_again_the_coefficients_are_the_same", z3.And(t(A1) == t(A2), t(B1) == t(B2), z3.BoolVal(C1 == C2))),
+                    ("first_answer_fits_the_curve_as_entered", z3.And(t(A1) - t(B1) * t(pts[0][0]) == t(pts[0][1]), t(A1) - t(B1) * t(pts[1][0]) == t(pts[1][1]))),
+                    ("after_the_curve_was_changed_the_coefficients_fit_the_new_points", z3.And(t(A3) - t(B3) * t(new[0][0]) == t(new[0][1]), t(A3) - t(B3) * t(new[1][0]) == t(new[1][1])))]
+        cx.ensure(post)
+    return Case("two_point_curve,computed,asked_again,points_changed,computed", build, crosscheck=False)
+
+
+CONTRACTS = [Contract("wntr.network.elements:HeadPump.get_head_curve_coefficients over a change of the curve", P + ["C11", "C10"], [_coef_history_case()],
+                      interpret_always=(HeadPump.get_head_curve_coefficients, _compute_change_compute),
+                      trusted=["CurveRegistry.__getitem__ returns the registered curve"]),
+             Contract("wntr.network.elements:HeadPump.get_head_curve_coefficients", P + ["C11"], [_coef_case(1, False), _coef_case(2, False), _coef_case(2, False, backwards=True)],
                       interpret_always=(HeadPump.get_head_curve_coefficients,),
-                      trusted=["CurveRegistry.__getitem__ returns the registered curve"])]
+                      trusted=["CurveRegistry.__getitem__ returns the registered curve"])
+             ][::-1]
 
 
 def _three_point(tier, seed):
